@@ -175,6 +175,12 @@ func (st *State) block(g *G, w *waitInfo) bool {
 }
 
 // run is the scheduler loop.
+//
+// explore mode is delay-bounded: at every scheduling point (before a visible operation of the running
+// goroutine, or when it blocks / ends) the enabled goroutines are ordered round-robin starting with the
+// running one; taking the k-th costs k delays, and at most Cfg.Preempt delays are spent per path.
+// With D delays every schedule that deviates at most D times from the deterministic round-robin
+// schedule is explored; all data stays symbolic.
 func (st *State) run() {
 	explore := st.eng.Cfg.Sched == "explore"
 	cur := 0
@@ -187,42 +193,48 @@ func (st *State) run() {
 			g.Wait = nil
 		}
 		if g.Status == "runnable" {
-			// scheduling point?
 			if explore && st.atVisible(g) && !st.lastSwitch {
 				alts := st.runnableOthers(g)
-				if len(alts) > 0 && st.preempts < st.eng.Cfg.Preempt {
+				left := st.eng.Cfg.Preempt - st.preempts
+				if len(alts) > 0 && left > 0 {
+					n := len(alts)
+					if n > left {
+						n = left
+					}
 					st.eng.Res.SchedPoints++
-					k := st.choose(1+len(alts), nil)
+					k := st.choose(1+n, nil)
 					if k > 0 {
-						st.preempts++
+						st.preempts += k
 						cur = alts[k-1]
 						st.lastSwitch = true
-						st.logf("preempt g%d -> g%d", g.ID, cur)
+						st.logf("delay x%d: g%d -> g%d", k, g.ID, cur)
 						continue
 					}
 				}
 			}
 			st.lastSwitch = false
-			ok := st.stepG(g)
-			if ok {
+			if st.stepG(g) {
 				continue
 			}
-			// g blocked: fall through to pick another
 		}
-		// current not runnable: pick next
-		var cands []int
-		for i, o := range st.gs {
-			if o.Status == "runnable" || (o.Status == "blocked" && st.enabled(o)) {
-				cands = append(cands, i)
-			}
-		}
+		// current not runnable: next in round-robin order, deviations cost delays
+		cands := st.runnableOthers(g)
 		if len(cands) == 0 {
 			st.finish()
 			return
 		}
 		if explore && len(cands) > 1 {
-			st.eng.Res.SchedPoints++
-			k := st.choose(len(cands), nil)
+			left := st.eng.Cfg.Preempt - st.preempts
+			n := len(cands) - 1
+			if n > left {
+				n = left
+			}
+			k := 0
+			if n > 0 {
+				st.eng.Res.SchedPoints++
+				k = st.choose(1+n, nil)
+			}
+			st.preempts += k
 			cur = cands[k]
 		} else {
 			cur = cands[0]
@@ -233,7 +245,16 @@ func (st *State) run() {
 
 func (st *State) runnableOthers(g *G) []int {
 	var out []int
+	n := len(st.gs)
+	start := 0
 	for i, o := range st.gs {
+		if o == g {
+			start = i
+		}
+	}
+	for d := 1; d <= n; d++ {
+		i := (start + d) % n
+		o := st.gs[i]
 		if o == g {
 			continue
 		}
